@@ -531,6 +531,15 @@ class HedSchema(HedSchemaBase):
 
         remainder = None
         if current_slash_index != -1:
+            if len(working_tag) != len(clean_tag):
+                # Case folding can change the length of the text (e.g. the sharp s): find the same slash as written
+                slash_number = working_tag.count("/", 0, current_slash_index)
+                current_slash_index = -1
+                for _ in range(slash_number + 1):
+                    current_slash_index = clean_tag.find("/", current_slash_index + 1)
+                    if current_slash_index == -1:
+                        current_slash_index = len(clean_tag)
+                        break
             remainder = clean_tag[current_slash_index:]
         if remainder and found_entry.takes_value_child_entry:
             found_entry = found_entry.takes_value_child_entry
